@@ -34,6 +34,13 @@ def correspondence(r):
         for v in ([rnd.choice(versions)] if kind == "random" else versions):
             for dup in ((False,) if rnd.random() < 0.7 else (False, True)):
                 cases.append({"version": v, "dup": dup, "first": first, "codelen": codelen, "tab": tab, "kind": kind})
+    # the public xdis.findlinestarts given the version as load_module returns it (three components: micro 0 and a later patch release)
+    pub = []
+    for c in cases[:: 3]:
+        if c["version"] is not None:
+            for micro in (0, 2):
+                pub.append(dict(c, triple=c["version"] + [micro], kind="public-3-tuple"))
+    cases = cases + pub
     for c in cases:
         r.count("lnotab-kind:" + c["kind"])
     C.correspond(r, "lnotab", HEADER, "lnotab", cases,
